@@ -254,6 +254,167 @@ fn eval_unbiased_wide<T: Int + SampleUniform>(c: &(Pat, Pat, Pat, Pat), obs: &mu
     Ok(())
 }
 
+/// is the single word `v` accepted by the sampler (no further word drawn)?
+fn accepts<T: Int + SampleUniform>(api: Api, lo: T, hi: T, v: &[u8]) -> (bool, T) {
+    let mut rng = ScriptRng::new(v);
+    let r = call(api, lo, hi, &mut rng);
+    (rng.consumed() == v.len(), r)
+}
+
+/// Acceptance is a property of the WORD (the samplers accept a *set* of words): a word that is
+/// rejected when it comes first must be rejected wherever it occurs, however many rejections
+/// precede it. Script: K copies of a rejected word followed by an accepted word.
+fn eval_stateless_rejection<T: Int + SampleUniform>(c: &(Pat, Pat, Vec<Pat>, u32), obs: &mut Obs) -> Result<(), String> {
+    let (p, q): (T, T) = (ld(&c.0), ld(&c.1));
+    let (lo, hi, zlo, zhi) = if p.z() <= q.z() { (p, q, p.z(), q.z()) } else { (q, p, q.z(), p.z()) };
+    let nb = (T::W / 8) as usize;
+    let k = c.3 as usize;
+    for api in [Api::UniformIncl, Api::SingleIncl, Api::GenRangeIncl] {
+        let mut rejected: Option<&Pat> = None;
+        let mut accepted: Option<&Pat> = None;
+        for w in &c.2 {
+            let (acc, _) = accepts(api, lo, hi, &w.0);
+            if acc && accepted.is_none() {
+                accepted = Some(w);
+            }
+            if !acc && rejected.is_none() {
+                rejected = Some(w);
+            }
+        }
+        let (Some(rej), Some(acc)) = (rejected, accepted) else { continue };
+        obs.nt();
+        obs.label_if(k > 128, "more than 128 consecutive rejected words");
+        let mut script = Vec::with_capacity((k + 1) * nb);
+        for _ in 0..k {
+            script.extend_from_slice(&rej.0);
+        }
+        script.extend_from_slice(&acc.0);
+        let mut rng = ScriptRng::new(&script);
+        let r = call(api, lo, hi, &mut rng);
+        ck!(format!("{:?}: {} copies of a rejected word are all rejected (words consumed)", api, k), rng.consumed() / nb, k + 1);
+        vlib::ck_true!(format!("{:?}: result in range", api), r.z() >= zlo && r.z() <= zhi);
+        let (_, single) = accepts(api, lo, hi, &acc.0);
+        ck!(format!("{:?}: the value depends only on the accepted word", api), st(&r), st(&single));
+    }
+    Ok(())
+}
+
+/// ranges with a large rejection zone (size just above a power of two) and candidate words
+fn rejection_cases(sh: Shape) -> BoxedStrategy<(Pat, Pat, Vec<Pat>, u32)> {
+    let w = sh.bits() as u64;
+    let nb = sh.bytes;
+    (gen::pattern(sh), 0u64..3, 1u64..40, proptest::collection::vec(prop_oneof![gen::uniform(sh), gen::pattern(sh)], 12), prop_oneof![Just(1u32), Just(2), Just(127), Just(128), Just(129), Just(130), Just(200), Just(257), 1u32..300])
+        .prop_map(move |(lo, k, extra, words, reps)| {
+            // size = 2^(W-1-k) + extra: about half of the words of the top binade are rejected
+            let size = Z::pow2(w - 1 - k.min(w - 2)).add(&Z::from_u64(extra));
+            let zlo = Z::from_le_unsigned(&lo.0).mod_2k(w - 2);
+            let zhi = zlo.add(&size).add_i(-1);
+            (Pat(zlo.to_le_wrapped(nb)), Pat(zhi.to_le_wrapped(nb)), words, reps)
+        })
+        .boxed()
+}
+
+/// Unbiasedness for SMALL ranges on wide types, where the candidate words of one output value
+/// cannot be enumerated. Uses the word -> value correspondence lo + floor(v*size/2^W) (checked
+/// separately for every accepted word) and the assumption that, within the candidate interval of
+/// one output value, the accepted words form a prefix; the assumption is spot-checked on both
+/// sides of the boundary and the case is skipped (never reported) if it does not hold. The number
+/// of accepted candidates, found by bisection, must be the same for every sampled output value.
+fn eval_unbiased_bisect<T: Int + SampleUniform>(c: &(Pat, Pat, Vec<Pat>), obs: &mut Obs) -> Result<(), String> {
+    let (p, q): (T, T) = (ld(&c.0), ld(&c.1));
+    let (lo, hi, zlo, zhi) = if p.z() <= q.z() { (p, q, p.z(), q.z()) } else { (q, p, q.z(), p.z()) };
+    let w = T::W as u64;
+    let nb = (T::W / 8) as usize;
+    let size = zhi.sub(&zlo).add_i(1);
+    if size == Z::pow2(w) || size <= Z::one() {
+        return Ok(());
+    }
+    let two_w = Z::pow2(w);
+    let mut hs = vec![Z::zero(), Z::one().divrem_trunc(&size).1, size.add_i(-1), size.shr_floor(1)];
+    for x in &c.2 {
+        hs.push(Z::from_le_unsigned(&x.0).divrem_trunc(&size).1);
+    }
+    for api in [Api::UniformIncl, Api::SingleIncl] {
+        let mut reference: Option<(Z, Z)> = None;
+        for (hi_idx, h) in hs.iter().enumerate() {
+            let first = h.mul(&two_w).divrem_ceil(&size).0;
+            let last = h.add_i(1).mul(&two_w).divrem_ceil(&size).0;
+            let cnt = last.sub(&first);
+            let acc = |k: &Z| -> Result<bool, String> {
+                let v = first.add(k);
+                let (a, r) = accepts(api, lo, hi, &v.to_le_wrapped(nb));
+                if a && r.z() != zlo.add(h) {
+                    return Err(format!("{:?}: accepted word {:?} gives {:?}, expected lo + {:?}", api, v, r.z(), h));
+                }
+                Ok(a)
+            };
+            // boundary: smallest k in [0, cnt] such that candidate k is not accepted (cnt if all are)
+            let count = if acc(&cnt.add_i(-1))? {
+                cnt.clone()
+            } else if !acc(&Z::zero())? {
+                Z::zero()
+            } else {
+                let (mut a, mut b) = (Z::zero(), cnt.add_i(-1)); // acc(a) true, acc(b) false
+                while b.sub(&a) > Z::one() {
+                    let mid = a.add(&b).shr_floor(1);
+                    if acc(&mid)? { a = mid } else { b = mid }
+                }
+                b
+            };
+            // spot-check the prefix assumption on both sides of the boundary
+            let mut prefix_ok = true;
+            for (j, x) in c.2.iter().enumerate() {
+                let rnd = Z::from_le_unsigned(&x.0).add(&Z::from_u64(j as u64 * 7919 + hi_idx as u64));
+                if !count.is_zero() {
+                    let below = rnd.divrem_trunc(&count).1;
+                    prefix_ok &= acc(&below)?;
+                }
+                let above_n = cnt.sub(&count);
+                if !above_n.is_zero() {
+                    let above = count.add(&rnd.divrem_trunc(&above_n).1);
+                    prefix_ok &= !acc(&above)?;
+                }
+            }
+            if !prefix_ok {
+                obs.label("accepted words are not a prefix of the candidate interval: count not decidable, skipped");
+                return Ok(());
+            }
+            vlib::runner::count_cmp(1);
+            if count.is_zero() {
+                return Err(format!("{:?} on [{:?}, {:?}]: the value lo+{:?} has no accepted preimage", api, zlo, zhi, h));
+            }
+            match &reference {
+                None => reference = Some((h.clone(), count)),
+                Some((h0, n0)) if *n0 != count => {
+                    return Err(format!("{:?} on [{:?}, {:?}] (size {:?}): lo+{:?} has {:?} accepted preimages but lo+{:?} has {:?}", api, zlo, zhi, size, h0, n0, h, count));
+                }
+                _ => {}
+            }
+        }
+    }
+    obs.nt_if(size.trailing_zeros().map_or(true, |tz| tz + 1 != size.bit_len()));
+    obs.label("small range on a wide type: preimage counts of 4+ output values located by bisection");
+    Ok(())
+}
+
+fn small_ranges(sh: Shape) -> BoxedStrategy<(Pat, Pat, Vec<Pat>)> {
+    let w = sh.bits() as u64;
+    let nb = sh.bytes;
+    let sizes = prop_oneof![
+        4 => (2u64..5000).prop_map(Z::from_u64),
+        2 => any::<u64>().prop_map(|x| Z::from_u64(x | 3)),
+        2 => (1u64..w - 7, -3i64..=3).prop_map(|(k, e)| { let z = Z::pow2(k).add_i(e); if z < Z::from_i64(2) { Z::from_i64(3) } else { z } }),
+        2 => gen::pattern(sh).prop_map(move |p| { let z = Z::from_le_unsigned(&p.0).mod_2k(w - 8); if z < Z::from_i64(2) { Z::from_i64(7) } else { z } }),
+    ];
+    (gen::pattern(sh), sizes, proptest::collection::vec(gen::uniform(sh), 3), any::<bool>())
+        .prop_map(move |(lo, size, extra, signed_span)| {
+            let zlo = if signed_span { Z::pow2(w - 1).sub(&size.shr_floor(1)) } else { Z::from_le_unsigned(&lo.0).mod_2k(w - 1) };
+            let zhi = zlo.add(&size).add_i(-1);
+            (Pat(zlo.to_le_wrapped(nb)), Pat(zhi.to_le_wrapped(nb)), extra)
+        })
+        .boxed()
+}
+
 fn wide_ranges(sh: Shape) -> BoxedStrategy<(Pat, Pat, Pat, Pat)> {
     let w = sh.bits() as u64;
     let nb = sh.bytes;
@@ -340,6 +501,18 @@ where
         ctx.run("u", ctx.budget(q(QUICK), FACTOR), range_cases(sh), eval_range::<U>);
         ctx.run("i", ctx.budget(q(QUICK), FACTOR), range_cases(sh), eval_range::<I>);
     }));
+    if U::W <= 1100 {
+        jobs.push(Job::new(job_name::<U>("stateless_rejection"), move |ctx| {
+            ctx.run("u", ctx.budget(q(QUICK / 6), FACTOR), rejection_cases(sh), eval_stateless_rejection::<U>);
+            ctx.run("i", ctx.budget(q(QUICK / 6), FACTOR), rejection_cases(sh), eval_stateless_rejection::<I>);
+        }));
+    }
+    if U::W > 32 && U::W <= 1100 {
+        jobs.push(Job::new(job_name::<U>("unbiased/bisect"), move |ctx| {
+            ctx.run("u", ctx.budget(q(QUICK / 20), FACTOR), small_ranges(sh), eval_unbiased_bisect::<U>);
+            ctx.run("i", ctx.budget(q(QUICK / 20), FACTOR), small_ranges(sh), eval_unbiased_bisect::<I>);
+        }));
+    }
     if U::W > 16 && U::W <= 32 {
         jobs.push(Job::new(job_name::<U>("unbiased/medium"), move |ctx| {
             ctx.run("u", ctx.budget(12, 10), medium_ranges(sh), eval_unbiased_wide::<U>);
@@ -410,10 +583,11 @@ fn main() {
     runner::main(
         Property {
             id: "C20",
-            rule: "The RNG is a ScriptRng: its output stream is a byte script chosen by the generator (then zeros), and it records how many bytes were drawn, so words are chosen, not left to chance. (1) Standard / Fill: for any script, gen::<T>() has the successive BYTES-sized little-endian chunks of the script as its pattern (hence every value is reachable), a slice fill of k elements consumes k*BYTES bytes and equals k successive gen() calls, Fill::try_fill == try_fill_slice. (2) Membership and exact mapping for gen_range(lo..hi), gen_range(lo..=hi), Uniform::new/new_inclusive + sample, sample_single(_inclusive): bounds from structured pairs sorted on the reference side and ranges of size 1, 2, 2^k, 2^k+-1, 2^W-1 and the full range, signed ranges spanning zero; the result lies in the range and equals lo + floor(v*range/2^W) for the last (accepted) word v. (3) Unbiasedness, exhaustive at 8 bits (every one of the 32 896 ranges x all 256 words x 2 samplers, U and I) and over all 65 536 words for special + generated ranges of the four 16-bit types: among ACCEPTED words (those after which no further word is drawn) every value of the range has the same number (>= 1) of preimages. (4) Unbiasedness above 16 bits (the leading_zeros zone branch): for ranges of size >= 2^(W-6) (any width up to 1088 bits) and of size >= 2^(W-16) on the 24- and 32-bit types all (<= 65 resp. <= 65 537) candidate words of six output values (0, 1, range-1, range/2, two generated) are enumerated and must have equal, non-zero accepted counts; in the thorough tier the complete 2^24 word space of the 24-bit types is enumerated for a few small ranges. NON-TRIVIAL: range size not a power of two, or full range / size 1; scripts of at least one word. distinct = distinct (profile, job, inputs) by 64-bit hash.",
+            rule: "The RNG is a ScriptRng: its output stream is a byte script chosen by the generator (then zeros), and it records how many bytes were drawn, so words are chosen, not left to chance. (1) Standard / Fill: for any script, gen::<T>() has the successive BYTES-sized little-endian chunks of the script as its pattern (hence every value is reachable), a slice fill of k elements consumes k*BYTES bytes and equals k successive gen() calls, Fill::try_fill == try_fill_slice. (2) Membership and exact mapping for gen_range(lo..hi), gen_range(lo..=hi), Uniform::new/new_inclusive + sample, sample_single(_inclusive): bounds from structured pairs sorted on the reference side and ranges of size 1, 2, 2^k, 2^k+-1, 2^W-1 and the full range, signed ranges spanning zero; the result lies in the range and equals lo + floor(v*range/2^W) for the last (accepted) word v. (3) Unbiasedness, exhaustive at 8 bits (every one of the 32 896 ranges x all 256 words x 2 samplers, U and I) and over all 65 536 words for special + generated ranges of the four 16-bit types: among ACCEPTED words (those after which no further word is drawn) every value of the range has the same number (>= 1) of preimages. (4) Unbiasedness above 16 bits (the leading_zeros zone branch): for ranges of size >= 2^(W-6) (any width up to 1088 bits) and of size >= 2^(W-16) on the 24- and 32-bit types all (<= 65 resp. <= 65 537) candidate words of six output values (0, 1, range-1, range/2, two generated) are enumerated and must have equal, non-zero accepted counts; in the thorough tier the complete 2^24 word space of the 24-bit types is enumerated for a few small ranges. (5) Small ranges on wide types (33..1088 bits): the number of accepted candidate words of 4-7 output values is located by bisection (assuming the accepted candidates of one output value form a prefix of its candidate interval - spot-checked on both sides of the boundary, the case is skipped if it does not hold) and must be equal. (6) Acceptance is a property of the word: K in {1, 2, 127..130, 200, 257, uniform < 300} copies of a word that is rejected when it comes first, followed by an accepted word, must consume exactly K+1 words. NON-TRIVIAL: range size not a power of two, or full range / size 1; scripts of at least one word. distinct = distinct (profile, job, inputs) by 64-bit hash.",
             assumptions: &[
                 "a word is 'accepted' iff the sampler draws no further word after it (observed through the byte counter of the scripted RNG)",
-                "for ranges smaller than 2^(W-6) on types wider than 16 bits the number of preimages per value is too large to enumerate; there only membership and the exact mapping are checked",
+                "the word -> value correspondence lo + floor(v*range/2^W) (rand 0.8's widening-multiply scheme, which bnum's own rand tests pin by comparing with the primitives under the same seed) is part of the oracle; a different unbiased scheme would require revisiting checks (2), (4) and (5)",
+                "for ranges smaller than 2^(W-6) on types wider than 32 bits preimage counts are located by bisection under a spot-checked prefix assumption, not enumerated; above 1088 bits only membership and the mapping are checked",
                 "rand 0.8 API (the version bnum's rand feature targets)",
             ],
         },
